@@ -97,12 +97,13 @@ def iso_data(draw, min_points=1, max_points=12, desorption=True, grid=None, stri
 
 
 _meta_values = st.one_of(st.text(alphabet="abcXYZ é-_", min_size=1, max_size=6), st.integers(-5, 5),
-                         st.floats(-10, 10).map(lambda x: round(x, 3)), st.booleans())
+                         st.floats(-10, 10).map(lambda x: round(x, 3)), st.booleans(),
+                         st.sampled_from(["", 0, 0.0, False]), st.sampled_from([[], [1, 2], ["a", "b"]]))  # "empty" values
 
 
 @st.composite
 def point_desc(draw, allow_fraction=True, min_points=1, max_points=12, desorption=True, extras=True, meta=True,
-               handicap=0.0, grid=None, strict_loading=False, force_extras=False, row_labels=True):
+               handicap=0.0, grid=None, strict_loading=False, force_extras=False, row_labels=True, int_data=True):
     """A full point-isotherm descriptor for pbt.case.build_point."""
     u = draw(units(allow_fraction))
     at = draw(ads_T())
@@ -113,6 +114,12 @@ def point_desc(draw, allow_fraction=True, min_points=1, max_points=12, desorptio
         "T": at["T_K"] if u["temperature_unit"] == "K" else at["T_K"] - 273.15,
         "material": mat, "pressure": data["pressure"], "loading": data["loading"],
     }
+    if int_data and draw(st.sampled_from([False] * 7 + [True])):
+        # whole numbers handed over as python ints (the table then holds integer columns); ranks keep the shape of the data
+        for key in ("pressure", "loading"):
+            ranks = {v: i + 1 for i, v in enumerate(sorted(set(d[key])))}
+            d[key] = [ranks[v] for v in d[key]]
+        d["int_data"] = True
     n = len(data["pressure"])
     mode = draw(st.sampled_from(["guess", "explicit", "explicit"]))
     d["branch"] = "guess" if mode == "guess" else data["branch_true"]
